@@ -6,10 +6,10 @@ key=$1; prop=$2; needs=$3; shift 3
 out=/tmp/seedout/$key; dst=/verif/seeded/$key
 [ -f $out/confirm.txt ] && grep -q "suite WITH change" $out/confirm.txt || /verif/tools_seedconfirm.sh $key > /dev/null
 cat $out/confirm.txt
-wo=$(grep -o "demo WITHOUT change: exit=[0-9]*" $out/confirm.txt | grep -o "[0-9]*$")
-wi=$(grep -o "demo WITH change: exit=[0-9]*" $out/confirm.txt | grep -o "[0-9]*$")
-bu=$(grep -o "build with change: exit=[0-9]*" $out/confirm.txt | grep -o "[0-9]*$")
-su=$(grep -o "suite WITH change: exit=[0-9]*" $out/confirm.txt | grep -o "[0-9]*$")
+wo=$(grep -o "demo WITHOUT change: exit=[0-9]*" $out/confirm.txt | tail -1 | grep -o "[0-9]*$")
+wi=$(grep -o "demo WITH change: exit=[0-9]*" $out/confirm.txt | tail -1 | grep -o "[0-9]*$")
+bu=$(grep -o "build with change: exit=[0-9]*" $out/confirm.txt | tail -1 | grep -o "[0-9]*$")
+su=$(grep -o "suite WITH change: exit=[0-9]*" $out/confirm.txt | tail -1 | grep -o "[0-9]*$")
 if [ "$wo" != 0 ] || [ "$wi" = 0 ] || [ "$bu" != 0 ] || [ "$su" != 0 ]; then echo "NOT CONFIRMED (without=$wo with=$wi build=$bu suite=$su)"; exit 1; fi
 res=$(/verif/tools_seedtest.sh $out/patch.diff "$@")
 echo "$res"
